@@ -1,10 +1,227 @@
 /-
 C16 — Pattern and criteria matching follows its documented semantics safely.
+
+Part 1: the wildcard matcher, `LA.Pm` (model of archive_pathmatch.c, both the
+`char` and the `wchar_t` copy).  Part 2: inclusion/exclusion, time and owner
+criteria, `LA.Match` (model of the decision logic of archive_match.c).
+
+Termination of the matcher is definitional: `matchAt`, `matchBody`, `unanch`,
+`pm`, `pmLoop`, `star` are accepted by Lean's well-founded recursion on the
+measure (pattern left, call kind, subject left); there is no fuel anywhere.
+
+Strings are lists of code units; "pattern/subject characters are non-NUL" is the
+C-string invariant `NoNul`.  The memory-safety theorems do not even need it (a
+NUL inside the list reads as a terminator and stops the scan early); the
+declarative ones do, and say so.
 -/
-import LA.Model.Pm
+import LA.Lemmas.PmSpec
+set_option linter.unusedSimpArgs false
 namespace LA.C16
 open LA.Pm
 
-theorem placeholder : True := trivial
+/-- "a[!b]", "a" -/
+def witnessPattern : List Nat := [97, 91, 33, 98, 93]
+def witnessSubject : List Nat := [97]
+
+/-! ## Evaluation never reads outside the pattern and path strings -/
+
+/-- `pm()` / `pm_w()` started anywhere inside the two strings never reads an index
+beyond either terminator: for all patterns, subjects, flags, start offsets. -/
+theorem pm_no_oob (cfg : Cfg) (hg : cfg.guardClass = true) (p s : List Nat) (fl : Flags)
+    (pi si : Nat) (hpi : pi ≤ p.length) (hsi : si ≤ s.length) :
+    pm cfg p s fl pi si ≠ .oob :=
+  (safe_all cfg hg p s).2.2.2.1 fl pi si hpi hsi
+
+example : pm narrow witnessPattern witnessSubject ⟨false, false⟩ 0 0 = .no := by
+  simp [witnessPattern, witnessSubject, pm_eq, pmLoop_eq, rd, dotSlash, classEnd]
+
+/-- `__archive_pathmatch()` / `__archive_pathmatch_w()` on two non-NULL strings. -/
+theorem matchAt_no_oob (cfg : Cfg) (hg : cfg.guardClass = true) (p s : List Nat) (fl : Flags)
+    (pi si : Nat) (hpi : pi ≤ p.length) (hsi : si ≤ s.length) :
+    matchAt cfg p s fl pi si ≠ .oob :=
+  (safe_all cfg hg p s).1 fl pi si hpi hsi
+
+/-- The entry points, NULL pointers included. -/
+theorem pathmatch_no_oob (cfg : Cfg) (hg : cfg.guardClass = true) (p s : Option (List Nat)) (fl : Flags) :
+    pathmatch cfg p s fl ≠ .oob := by
+  cases p <;> cases s <;> simp [pathmatch]
+  exact matchAt_no_oob cfg hg _ _ fl 0 0 (Nat.zero_le _) (Nat.zero_le _)
+
+example : pathmatch wide (some [97]) (some [97, 47, 98]) ⟨false, true⟩ = .yes := by
+  simp [pathmatch, matchAt_eq, matchBody_eq, pm_eq, pmLoop_eq, rd, dotSlash]
+
+/-- The verdict is therefore always a plain yes/no. -/
+theorem pathmatch_total (cfg : Cfg) (hg : cfg.guardClass = true) (p s : Option (List Nat)) (fl : Flags) :
+    pathmatch cfg p s fl = .yes ∨ pathmatch cfg p s fl = .no := by
+  have := pathmatch_no_oob cfg hg p s fl
+  cases h : pathmatch cfg p s fl <;> simp_all
+
+/-- The statement above is **false of the code before the `fix:` commit** (model with
+`guardClass := false`): pattern `a[!b]` against `a` lets the class accept the
+terminator and the next iteration reads one past it.  Replayed on the real code by
+`corpus/C16/pm.class-at-nul.ops`. -/
+theorem unrepaired_reads_past_end :
+    pathmatch narrowUnrepaired (some witnessPattern) (some witnessSubject) ⟨false, false⟩ = .oob := by
+  simp [witnessPattern, witnessSubject, pathmatch, matchAt_eq, matchBody_eq, pm_eq, pmLoop_eq, rd, dotSlash,
+    classEnd, pmList, pmListLoop, narrowUnrepaired]
+
+/-! ## The narrow and wide entry points agree -/
+
+/-- On strings of 7-bit code units (the property's alphabet) `__archive_pathmatch` and
+`__archive_pathmatch_w` return the same verdict.  Beyond 7 bits they cannot: the
+narrow matcher sees bytes, signed, the wide one code points. -/
+theorem narrow_wide_agree (p s : Option (List Nat)) (fl : Flags)
+    (hp : ∀ x, p = some x → Ascii x) (hs : ∀ x, s = some x → Ascii x) :
+    pathmatch narrow p s fl = pathmatch wide p s fl := by
+  cases p <;> cases s <;> simp [pathmatch]
+  rename_i p s
+  exact ((nw_all p s (hp p rfl) (hs s rfl)).1 fl 0 0).symm
+
+example : Ascii witnessPattern := by simp [Ascii, witnessPattern]
+
+/-- The restriction is needed: byte 0x80 is below 'a' for `char`, above it for `wchar_t`. -/
+theorem narrow_wide_differ_beyond_ascii :
+    pathmatch narrow (some [91, 97, 45, 128, 93]) (some [98]) ⟨false, false⟩ = .no ∧
+    pathmatch wide (some [91, 97, 45, 128, 93]) (some [98]) ⟨false, false⟩ = .yes := by
+  constructor <;>
+  simp [pathmatch, matchAt_eq, matchBody_eq, pm_eq, pmLoop_eq, rd, dotSlash, classEnd, pmList, pmListLoop,
+    narrow, wide, sext, Res.ofBool]
+
+/-! ## Documented semantics, declaratively -/
+
+/-- `?` consumes exactly one character of the subject, whatever it is (also `/`). -/
+theorem pm_question (cfg : Cfg) (p s : List Nat) (fl : Flags) (pi si : Nat) (hs : NoNul s)
+    (hq : rd p pi = some C_QUEST) (hsi : si < s.length) :
+    pmLoop cfg p s fl pi si = pmLoop cfg p s fl (pi + 1) (si + 1) := by
+  obtain ⟨c, hc, hc0, _⟩ := rd_inside hs hsi
+  rw [pmLoop_eq]; simp [hq, hc, hc0]
+
+/-- `?` never matches the end of the subject. -/
+theorem pm_question_at_end (cfg : Cfg) (p s : List Nat) (fl : Flags) (pi : Nat)
+    (hq : rd p pi = some C_QUEST) :
+    pmLoop cfg p s fl pi s.length = .no := by
+  rw [pmLoop_eq]; simp [hq, rd_len]
+
+example : rd [97, 63, 98] 1 = some C_QUEST := by simp [rd]
+
+/-- A run of `*` matches iff nothing follows it, or the rest of the pattern matches (through
+the entry point, as the C does) at some position of the subject that is not its end. -/
+theorem pm_star (cfg : Cfg) (hg : cfg.guardClass = true) (p s : List Nat) (hs : NoNul s) (fl : Flags)
+    (pi si pj : Nat) (hstar : rd p pi = some C_STAR) (hpj : skipStars p pi = some pj)
+    (hsi : si ≤ s.length) :
+    pmLoop cfg p s fl pi si = .yes ↔
+      rd p pj = some 0 ∨ ∃ sj, si ≤ sj ∧ sj < s.length ∧ matchAt cfg p s fl pj sj = .yes := by
+  have hle := skipStars_le hpj
+  obtain ⟨c', hc'⟩ := rd_isSome hle
+  rw [pmLoop_eq]; simp only [hstar, hpj, hc']
+  by_cases h0 : c' = 0
+  · subst h0; simp
+  · have : (42 : Nat) ≠ 0 := by decide
+    simp only [h0, if_false, Option.some.injEq, false_or, this, (by decide : (42 : Nat) ≠ 63), if_true]
+    exact star_yes_iff cfg hg p s hs fl pj hle si hsi
+
+example : skipStars [42, 42, 97] 0 = some 2 := by
+  simp [skipStars_eq, rd]
+
+/-- A trailing `*` matches everything. -/
+theorem pm_star_trailing (cfg : Cfg) (p s : List Nat) (fl : Flags) (pi si : Nat)
+    (hstar : rd p pi = some C_STAR) (hpj : skipStars p pi = some p.length) :
+    pmLoop cfg p s fl pi si = .yes := by
+  rw [pmLoop_eq]; simp [hstar, hpj, rd_len]
+
+/-- A pattern of ordinary characters matches a slash-free subject iff they are equal. -/
+theorem pm_literal (cfg : Cfg) (p s : List Nat) (fl : Flags) (hp : ∀ c ∈ p, Lit c) (hs : NoNul s)
+    (hns : ∀ c ∈ s, c ≠ C_SLASH) :
+    pm cfg p s fl 0 0 = .ofBool (p = s) := by
+  have hps : ∀ c ∈ p, c ≠ C_SLASH := fun c hc => (hp c hc).2.2.2.2.2.1
+  rw [pm_eq, dotSlash_noSlash hns 0 (Nat.zero_le _), dotSlash_noSlash hps 0 (Nat.zero_le _)]
+  simpa using pmLoop_literal cfg p s fl hp hs hns 0 0 (Nat.zero_le _) (Nat.zero_le _)
+
+example : ∀ c ∈ [97, 46, 98], Lit c := by simp [Lit]
+
+/-- With `PATHMATCH_NO_ANCHOR_START` (and no leading `^`, `*`, `/`) the entry point succeeds iff
+`pm()` succeeds at the start of some path element: the beginning, or just after any `/`. -/
+theorem unanchored_start (cfg : Cfg) (hg : cfg.guardClass = true) (p s : List Nat) (hs : NoNul s)
+    (fl : Flags) (hf : fl.noStart = true) (c : Nat) (hc : rd p 0 = some c) (hc0 : c ≠ 0)
+    (hcc : c ≠ C_CARET) (hcs : c ≠ C_STAR) (hcl : c ≠ C_SLASH) :
+    matchAt cfg p s fl 0 0 = .yes ↔ ∃ k, ElemStart s 0 k ∧ pm cfg p s fl 0 k = .yes := by
+  obtain ⟨d, hd⟩ := rd_isSome (Nat.zero_le s.length)
+  rw [matchAt_eq]; simp only [hc, hc0, hcc, if_false]
+  rw [matchBody_eq]; simp only [hc, hd, hcs, hcl, false_and, false_or, if_false, hf, if_true]
+  exact unanch_yes_iff cfg hg p s hs fl 0 (Nat.zero_le _) 0 (Nat.zero_le _)
+
+example : ElemStart [97, 47, 98] 0 2 := .inr ⟨1, by simp [firstStart, rd], by simp, by simp, rfl⟩
+
+/-- A leading `^` switches `PATHMATCH_NO_ANCHOR_START` off and is otherwise dropped. -/
+theorem caret_anchors_start (cfg : Cfg) (p s : List Nat) (fl : Flags) (h : rd p 0 = some C_CARET) :
+    matchAt cfg p s fl 0 0 = matchBody cfg p s { fl with noStart := false } 1 0 := by
+  rw [matchAt_eq]; simp [h]
+
+/-- Without `PATHMATCH_NO_ANCHOR_START` the match starts at the beginning only. -/
+theorem anchored_start (cfg : Cfg) (p s : List Nat) (fl : Flags) (hf : fl.noStart = false)
+    (c d : Nat) (hc : rd p 0 = some c) (hd : rd s 0 = some d) (hc0 : c ≠ 0)
+    (hcc : c ≠ C_CARET) (hcs : c ≠ C_STAR) (hcl : c ≠ C_SLASH) :
+    matchAt cfg p s fl 0 0 = pm cfg p s fl 0 0 := by
+  rw [matchAt_eq]; simp only [hc, hc0, hcc, if_false]
+  rw [matchBody_eq]; simp [hc, hd, hcs, hcl, hf]
+
+/-- End of pattern, `PATHMATCH_NO_ANCHOR_END`: accepted at a `/` boundary of the subject
+(a pattern naming a directory also matches what is below it). -/
+theorem end_unanchored_at_slash (cfg : Cfg) (p s : List Nat) (fl : Flags) (pi si : Nat)
+    (hp : rd p pi = some 0) (hs : rd s si = some C_SLASH) (hf : fl.noEnd = true) :
+    pmLoop cfg p s fl pi si = .yes := by
+  rw [pmLoop_eq]; simp [hp, hs, hf]
+
+/-- End of pattern, anchored end: only `/`, `./` and a final `.` may remain ("dir" == "dir/" == "dir/."). -/
+theorem end_anchored (cfg : Cfg) (p s : List Nat) (fl : Flags) (pi si sj : Nat)
+    (hp : rd p pi = some 0) (hs : rd s si = some C_SLASH) (hf : fl.noEnd = false)
+    (hk : slashskip s si = some sj) :
+    pmLoop cfg p s fl pi si = .ofBool (rd s sj = some 0) := by
+  obtain ⟨d, hd⟩ := rd_isSome (slashskip_le hk)
+  rw [pmLoop_eq]; simp [hp, hs, hf, hk, hd]
+
+/-- End of pattern away from a `/`: the subject must end too, whatever the flags. -/
+theorem end_not_at_slash (cfg : Cfg) (p s : List Nat) (fl : Flags) (pi si d : Nat)
+    (hp : rd p pi = some 0) (hs : rd s si = some d) (hd : d ≠ C_SLASH) :
+    pmLoop cfg p s fl pi si = .ofBool (d = 0) := by
+  rw [pmLoop_eq]; simp [hp, hs, hd]
+
+/-- A final `$` under `PATHMATCH_NO_ANCHOR_END` anchors the end (modulo trailing `/`, `/.`). -/
+theorem dollar_anchors_end (cfg : Cfg) (p s : List Nat) (fl : Flags) (pi si sj : Nat)
+    (hp : rd p pi = some C_DOLLAR) (hp1 : rd p (pi + 1) = some 0) (hf : fl.noEnd = true)
+    (hk : slashskip s si = some sj) :
+    pmLoop cfg p s fl pi si = .ofBool (rd s sj = some 0) := by
+  obtain ⟨d, hd⟩ := rd_isSome (slashskip_le hk)
+  rw [pmLoop_eq]; simp [hp, hp1, hf, hk, hd]
+
+/-- Leading `./` (and what `pm_slashskip` swallows after it) of the subject is ignored. -/
+theorem leading_dot_slash_subject (cfg : Cfg) (p s : List Nat) (fl : Flags) (pi si sj pj : Nat)
+    (h0 : rd s si = some C_DOT) (h1 : rd s (si + 1) = some C_SLASH) (hk : slashskip s (si + 1) = some sj)
+    (hpd : dotSlash p pi = some pj) :
+    pm cfg p s fl pi si = pmLoop cfg p s fl pj sj := by
+  have hsd : dotSlash s si = some sj := by simp [dotSlash, h0, h1, hk]
+  rw [pm_eq]; simp [hsd, hpd]
+
+/-- … and of the pattern. -/
+theorem leading_dot_slash_pattern (cfg : Cfg) (p s : List Nat) (fl : Flags) (pi si sj pj : Nat)
+    (h0 : rd p pi = some C_DOT) (h1 : rd p (pi + 1) = some C_SLASH) (hk : slashskip p (pi + 1) = some pj)
+    (hsd : dotSlash s si = some sj) :
+    pm cfg p s fl pi si = pmLoop cfg p s fl pj sj := by
+  have hpd : dotSlash p pi = some pj := by simp [dotSlash, h0, h1, hk]
+  rw [pm_eq]; simp [hsd, hpd]
+
+example : slashskip [46, 47, 47, 46, 47, 97] 1 = some 5 := by
+  simp [slashskip_eq, rd]
+
+/-- A `/` in the pattern matches one or more `/` (with `./` segments) of the subject, or its end. -/
+theorem slash_run (cfg : Cfg) (p s : List Nat) (fl : Flags) (pi si pj sj d c' : Nat)
+    (hp : rd p pi = some C_SLASH) (hs : rd s si = some d) (hd : d = C_SLASH ∨ d = 0)
+    (hpk : slashskip p pi = some pj) (hsk : slashskip s si = some sj) (hc' : rd p pj = some c')
+    (hne : ¬ (c' = 0 ∧ fl.noEnd = true)) :
+    pmLoop cfg p s fl pi si = pmLoop cfg p s fl pj sj := by
+  rw [pmLoop_eq]
+  have : ¬ (d ≠ C_SLASH ∧ d ≠ 0) := by rcases hd with h | h <;> simp [h]
+  simp only [hp, hs, hpk, hsk, hc']
+  simp [this, hne]
 
 end LA.C16
